@@ -52,6 +52,7 @@ func (s *State) clone() *State {
 }
 
 type Obligation struct {
+	Block   *ssa.BasicBlock
 	Name    string
 	Kind    string
 	Guard   string // path condition
@@ -102,6 +103,9 @@ type VCGen struct {
 	freshBases  map[string]bool
 	inlineDepth int
 	immTypesDone bool
+	curBlock    *ssa.BasicBlock   // block being translated (nil: function entry / global facts)
+	assertBlk   []*ssa.BasicBlock // origin block of each assumption
+	reachCache  map[[2]int]bool
 	imapBySort  map[string]*imapInfo
 	ilistBySort map[string]*ilistInfo
 }
@@ -139,6 +143,7 @@ func (g *VCGen) freshConst(prefix, sort string) string {
 
 func (g *VCGen) assume(f string) {
 	g.asserts = append(g.asserts, f)
+	g.assertBlk = append(g.assertBlk, g.curBlock)
 }
 
 // assumeHere: assumption valid on the current path.
@@ -151,7 +156,7 @@ func (g *VCGen) assumeHere(f string) {
 }
 
 func (g *VCGen) oblige(name, kind, goal, text string, pos token.Pos) {
-	g.obls = append(g.obls, Obligation{Name: name, Kind: kind, Guard: g.pathCond, Goal: goal, NAssert: len(g.asserts),
+	g.obls = append(g.obls, Obligation{Block: g.oblBlock(), Name: name, Kind: kind, Guard: g.pathCond, Goal: goal, NAssert: len(g.asserts),
 		Pos: g.fn.Prog.Fset.Position(pos), Text: text, Func: g.fn.String()})
 }
 
@@ -611,4 +616,50 @@ func (g *VCGen) topoOrder() []*ssa.BasicBlock {
 		}
 	}
 	return order
+}
+
+func (g *VCGen) oblBlock() *ssa.BasicBlock { return g.curBlock }
+
+// blockReachesDAG: is there a path from a to b in the CFG with back edges removed (a == b counts)
+func (g *VCGen) blockReachesDAG(a, b *ssa.BasicBlock) bool {
+	if a == b {
+		return true
+	}
+	if g.reachCache == nil {
+		g.reachCache = map[[2]int]bool{}
+	}
+	key := [2]int{a.Index, b.Index}
+	if r, ok := g.reachCache[key]; ok {
+		return r
+	}
+	g.reachCache[key] = false
+	res := false
+	for _, s := range a.Succs {
+		if g.backEdge[[2]int{a.Index, s.Index}] {
+			continue
+		}
+		if g.blockReachesDAG(s, b) {
+			res = true
+			break
+		}
+	}
+	g.reachCache[key] = res
+	return res
+}
+
+// relevantAsserts: assumptions visible to an obligation: those emitted before it whose origin block lies on some
+// path to the obligation's block (assumptions of other branches / of the bodies of loops already left are dropped:
+// they are guarded by reachability predicates that are false on every path to the obligation).
+func (g *VCGen) relevantAsserts(o Obligation) []string {
+	var out []string
+	for i := 0; i < o.NAssert && i < len(g.asserts); i++ {
+		var ab *ssa.BasicBlock
+		if i < len(g.assertBlk) {
+			ab = g.assertBlk[i]
+		}
+		if ab == nil || o.Block == nil || g.blockReachesDAG(ab, o.Block) {
+			out = append(out, g.asserts[i])
+		}
+	}
+	return out
 }
